@@ -24,12 +24,16 @@ pub struct RNode {
     pub locator: String,
 }
 
-pub struct RTree { pub nodes: Vec<RNode> }
+pub struct RTree { pub nodes: Vec<RNode>, pub attr_ord: u8 }
 
 impl RTree {
-    pub fn build(doc: &Doc) -> RTree {
+    pub fn build(doc: &Doc) -> RTree { Self::build_ord(doc, 0) }
+
+    /// `ord` chooses the relative order of the attribute nodes of one element, which XPath leaves to the
+    /// implementation: 0 by qualified name, 1 the reverse, 2 and 3 rotated by one to the left and to the right
+    pub fn build_ord(doc: &Doc, ord: u8) -> RTree {
         let ents = Entities::of(doc);
-        let mut t = RTree { nodes: vec![] };
+        let mut t = RTree { nodes: vec![], attr_ord: ord };
         t.nodes.push(RNode { kind: RKind::Root, parent: None, children: vec![], attrs: vec![], nss: vec![], prefix: None, local: String::new(), uri: None, value: String::new(), locator: "/".into() });
         let mut idx = 0usize;
         let mut add_misc = |t: &mut RTree, m: &model::Misc, idx: &mut usize| {
@@ -81,6 +85,7 @@ impl RTree {
         }
         for d in &defs { if let AttDefault::Value(_, v) = &d.default { if !e.attrs.iter().any(|a| a.prefix == d.prefix && a.local == d.local) { atts.push((qn(&d.prefix, &d.local), d.prefix.clone(), d.local.clone(), model::attr_normalized(v, ents, d.ty == AttType::CData))); } } }
         atts.sort();
+        match self.attr_ord { 1 => atts.reverse(), 2 => { if atts.len() > 1 { atts.rotate_left(1); } } 3 => { if atts.len() > 1 { atts.rotate_right(1); } } _ => {} }
         for (q, p, l, v) in atts {
             let aid = self.nodes.len();
             let uri = if p.is_some() { lookup(p.as_deref()) } else { None };
